@@ -219,6 +219,26 @@ def check_exporter(case, kind, tree, labels, acc):
     # repeated iteration gives the same lines (identifier stability)
     if list(exporter) != lines:
         raise Violation("re-iteration", "%s: second iteration differs" % ctx)
+    if kind == "UniqueDotExporter" and nodename is None and declared:
+        # a second iteration started while the first one is between its node statements and its edges
+        it1 = iter(exporter)
+        head = [next(it1) for _ in range(1 + len(options) + len(declared))]
+        second = list(exporter)
+        if head + list(it1) != lines or second != lines:
+            raise Violation("identifier-stability", "%s: interleaved iterations of one exporter disagree about identifiers" % ctx)
+        # the tree grows between two iterations of the same exporter: nodes keep their identifiers
+        extra = Node("extra-first-child")
+        index_of[id(extra)] = len(tree)
+        start.children = (extra,) + start.children
+        try:
+            declared2, _, _ = expected_structure(tree + [extra], start, stop_ids, hide_ids, maxlevel)
+            body2 = list(exporter)[1 + len(options):]
+            for node, line in zip(declared2, body2):
+                _, end = parse_quoted(line, len(indent))
+                if id(node) in ident and ident[id(node)] != line[len(indent):end]:
+                    raise Violation("identifier-stability", "%s: node %r is %s in the first export and %s after a sibling was added" % (ctx, node.name, ident[id(node)], line[len(indent):end]))
+        finally:
+            extra.parent = None
     return lines, declared, edges
 
 
@@ -230,6 +250,15 @@ def check_case(case, acc):
     results = {}
     for kind in case.get("exporters", ["DotExporter", "UniqueDotExporter", "RenderTreeGraph"]):
         results[kind] = check_exporter(case, kind, tree, labels, acc)
+    if case.get("mutations"):
+        for op in case["mutations"]:
+            # exports reflect the current tree: same nodes, changed links / names
+            refs.mutate_tree(tree, op)
+            if len({n.name for n in tree}) == len(tree) or case.get("exporters") == ["UniqueDotExporter"]:
+                for kind in case.get("exporters", ["DotExporter", "UniqueDotExporter", "RenderTreeGraph"]):
+                    check_exporter(case, kind, tree, labels, acc)
+                acc.tag("rechecked_after_mutation")
+        before = forest.snapshot(tree, labels)
     if "DotExporter" in results and "RenderTreeGraph" in results and results["DotExporter"][0] != results["RenderTreeGraph"][0]:
         raise Violation("rendertreegraph", "RenderTreeGraph lines differ from DotExporter lines")
     if case.get("to_file") and "DotExporter" in results:
@@ -314,6 +343,7 @@ def random_cases(draw, exporters=("DotExporter", "UniqueDotExporter", "RenderTre
         "maxlevel": draw(st.one_of(st.none(), st.integers(0, 6))),
         "exporters": kinds,
         "to_file": draw(st.integers(0, 9)) == 0,
+        "mutations": draw(strategies.tree_mutations(max_ops=2)),
     }
     if draw(st.booleans()):
         funcs = {}
